@@ -68,8 +68,14 @@ TrGen  == /\ IsEv("Gen") /\ Keep /\ UNCHANGED << mf, mg >>
           /\ LET r == GenOf(lines, ev.cap, mg) IN
              Check(/\ ev.ok = r.ok /\ ev.over = r.over /\ (r.ok => ev.n = r.n)
                    /\ ((r.ok /\ r.over = 0) => (Has("out") /\ ev.out = GenText(lines))), "Gen", r)
+\* the text round trip executed by the real code: generated text, enumeration of the re-parsed store, its text again
+TrRoundTrip == /\ IsEv("RoundTrip") /\ Keep /\ UNCHANGED << mf, mg >>
+               /\ LET t == GenText(lines)  back == ParseOf(<< >>, t) IN
+                  Check(/\ ev.rc = 0 /\ ev.rc2 = 0 /\ ev.text = t
+                        /\ ev.sects = EnumAll(back) /\ ev.text2 = t
+                        /\ CoreSeq(back) = CoreSeq(lines) /\ EnumAll(back) = EnumAll(lines), "RoundTrip", EnumAll(lines))
 TrReset == IsEv("Reset") /\ lines' = << >> /\ model' = EmptyModel /\ l' = l + 1 /\ UNCHANGED << mf, mg >>
-TNext == TrParse \/ TrSet \/ TrSetNum \/ TrGet \/ TrGetI \/ TrGetNum \/ TrEnum \/ TrCalc \/ TrGen \/ TrReset
+TNext == TrParse \/ TrSet \/ TrSetNum \/ TrGet \/ TrGetI \/ TrGetNum \/ TrEnum \/ TrCalc \/ TrGen \/ TrRoundTrip \/ TrReset
 TSpec == TInit /\ [][TNext]_tvars
 
 \* end of trace: every behaviour reports itself (the invariant itself never fails); the rig requires this line for
